@@ -451,6 +451,8 @@ type Contract struct {
 	Ensures  []Clause
 	Modifies []Clause
 	ModAll   bool
+	UseStable     bool // the unit uses the stable declarations (all, or those named in UseStableOnly by their T.f / type text)
+	UseStableOnly []string
 	Pure     bool
 	Loops    map[int]*LoopSpec
 	NoPanic  bool // true = nopanic obligations are generated (default)
@@ -495,7 +497,7 @@ type ContractFile struct {
 var clauseKeywords = map[string]bool{
 	"func": true, "end": true, "props": true, "requires": true, "ensures": true, "modifies": true,
 	"pure": true, "loop": true, "invariant": true, "decreases": true, "unroll": true, "define": true,
-	"axiom": true, "constglobal": true, "stable": true, "inline": true, "nopanic": true, "ieee": true, "assume": true,
+	"axiom": true, "constglobal": true, "stable": true, "usestable": true, "inline": true, "nopanic": true, "ieee": true, "assume": true,
 	"trusted": true, "note": true, "fresh": true, "lemma": true, "opaque": true, "declare": true, "import": true, "ghost": true,
 }
 
@@ -653,6 +655,9 @@ func ParseContractFile(path string) (*ContractFile, error) {
 			cur.Trusted = true
 		case "opaque":
 			cur.Opaque = true
+		case "usestable":
+			cur.UseStable = true
+			cur.UseStableOnly = append(cur.UseStableOnly, strings.Fields(strings.ReplaceAll(rc.text, ",", " "))...)
 		case "fresh":
 			if t := strings.TrimSpace(rc.text); t != "" {
 				if cur.FreshResults == nil {
